@@ -138,7 +138,46 @@ def run(prog, rep):
     lo_, hi_ = min(vals), max(vals)
     okr = any(sorted(got) == sorted(f_) for f_ in ([(">=", lo_), ("<=", hi_)], [(">", lo_ - 1), ("<", hi_ + 1)], [("<", lo_), (">", hi_)], [("<=", lo_ - 1), (">=", hi_ + 1)]))
     rep.ob("C12.1", nw, "range", okr, "the type range test accepts exactly the enumerators" if okr else "range test %s vs enumerators %s" % (got, vals), nw.loc[0])
-    rep.floor("C12.1", 4)
+    # keys, values and the comparator's data are opaque to the library: a map holds *any* pointer, NULL included (a tree used as a
+    # set stores NULL values).  In the public operations and in the variants' insert / remove functions a parameter of type
+    # `void *` is handed on (call argument) or stored (right-hand side) - it is never tested, compared, negated or dereferenced,
+    # so no key or value can veto an operation or steer it
+    nopq = 0
+    opq_fns = [tu.fn(n_, raw=True) for n_ in ("p_tree_insert", "p_tree_remove", "p_tree_lookup")]
+    for (un, tag) in VARIANTS:
+        for op_ in ("insert", "remove"):
+            opq_fns.append(prog.unit(un).fn("p_tree_%s_%s" % (tag, op_), raw=True))
+    for f_ in opq_fns:
+        ps_ = [p_["name"] for p_ in f_.d.get("params", []) if (p_.get("ts") or "").replace("const ", "").strip() in ("ppointer", "pconstpointer", "void *", "const void *")]
+        if not ps_:
+            continue
+
+        def is_p(e_, ps_=ps_):
+            e_ = strip_casts(e_)
+            return e_ is not None and e_["k"] == "ref" and e_.get("decl") == "param" and e_["name"] in ps_
+        used = []
+        for b_ in f_.blocks.values():
+            if b_.cond is not None and is_p(b_.cond):
+                used.append((b_.cond, "tested"))
+        for (b_, i_, n_) in f_.nodes(elsewhere=True):
+            k_ = n_["k"]
+            if k_ == "bin" and (is_p(n_["l"]) or is_p(n_["r"])):
+                used.append((n_, "an operand of `%s`" % n_["op"]))
+            elif k_ == "un" and n_.get("op") in ("!", "*", "-", "~") and is_p(n_["e"]):
+                used.append((n_, "an operand of `%s`" % n_["op"]))
+            elif k_ == "member" and is_p(n_["base"]):
+                used.append((n_, "dereferenced"))
+            elif k_ == "idx" and (is_p(n_["base"]) or is_p(n_["i"])):
+                used.append((n_, "subscripted"))
+            elif k_ == "cond" and is_p(n_["c"]):
+                used.append((n_, "tested"))
+            elif k_ == "call" and n_.get("callee") == "__builtin_expect" and n_.get("args") and is_p(n_["args"][0]):
+                used.append((n_, "tested"))
+        nopq += 1
+        rep.ob("C12.1", f_, "opaque", not used, "the user's pointers (%s) are only handed on or stored, never inspected" % ", ".join(ps_) if not used else
+               "line %d: in `%s` a user pointer is %s: the map treats one key or value differently from the others (NULL is an ordinary value - a tree used as a set holds nothing else), so the operation "
+               "is refused or steered by what the caller stores" % (line(used[0][0]), show(used[0][0])[:60], used[0][1]), used[0][0] if used else f_.loc[0])
+    rep.floor("C12.1", 4 + 9)
 
     # ---- C12.2 ----------------------------------------------------------------------------
     lk = tu.fn("p_tree_lookup")
@@ -492,6 +531,10 @@ def run(prog, rep):
 RENAME_LOCALS = ['src/ptree.c', 'src/ptree-bst.c', 'src/ptree-rb.c', 'src/ptree-avl.c']
 
 SELFTEST = [
+    dict(id="insert-refuses-null-value", file="src/ptree.c", expect="C12.1",
+         old="\tpboolean result;\n\n\tif (P_UNLIKELY (tree == NULL))\n\t\treturn;\n", new="\tpboolean result;\n\n\tif (P_UNLIKELY (tree == NULL || value == NULL))\n\t\treturn;\n"),
+    dict(id="lookup-refuses-null-key", file="src/ptree.c", expect="C12.1",
+         old="\tif (P_UNLIKELY (tree == NULL))\n\t\treturn NULL;\n\n\tcur_node = tree->root;", new="\tif (P_UNLIKELY (tree == NULL || !key))\n\t\treturn NULL;\n\n\tcur_node = tree->root;"),
     dict(id="rb-pred-walks-left", file="src/ptree-rb.c", expect="C12.6",
          old="\t\twhile (prev_node->right != NULL)\n\t\t\tprev_node = prev_node->right;", new="\t\twhile (prev_node->left != NULL)\n\t\t\tprev_node = prev_node->left;"),
     dict(id="avl-pred-from-right", file="src/ptree-avl.c", expect="C12.6",
